@@ -5,6 +5,7 @@ from vt.model import walk_no_nested, norm, dotted_name
 from vt.runner import where, AnalysisError
 from rules import common, ir
 from rules.C07 import _key_is
+from vt.cfg import CFG, enclosing_trys, in_subtree
 
 EXPLANATION = (
     "Rules on JsonCodeGen.genIndex and the attribute chain that feeds it: every prefix test on dotted OID strings is "
@@ -233,4 +234,66 @@ def r6_summary_objects(chk):
         chk.ob('C18.R6', o.key, o.ok, o.where, o.detail)
 
 
-RULES = [r1_componentwise_prefix, r2_attribute_chain, r3_sections_monotone, r4_ordering, r5_index_file_roundtrip, r6_summary_objects]
+def r7_build_index_call(chk):
+    """buildIndex writes genIndex(<its first argument>, ..., old_index_data=<what the writer reads back under the same
+    name>) under the index name; a failure is raised unless ignoreErrors was asked for"""
+    model = chk.model
+    from rules import compile_roles as cr
+    o2, bi = model.method('pysmi/compiler.py', 'MibCompiler', 'buildIndex')
+    mod = o2.mod
+    chk.doc('C18.R7', 'MibCompiler.buildIndex: putData(<index name>, genIndex(<processed argument>, comments=..., '
+                      'old_index_data=<writer>.getData(<same index name>)), dryRun=...) - name first, document '
+                      'second; a PySmiError from it is re-raised on every path except under a positive '
+                      'options.get("ignoreErrors") test, which returns')
+    proc = bi.args.args[1].arg
+    opt = bi.args.kwarg.arg if bi.args.kwarg else 'options'
+    puts = [c for c in walk_no_nested(bi) if isinstance(c, ast.Call) and isinstance(c.func, ast.Attribute) and
+            c.func.attr == 'putData']
+    chk.ob('C18.R7', 'buildIndex/one-putData', len(puts) == 1, where(mod, bi), '%d putData calls' % len(puts))
+    if len(puts) != 1:
+        return
+    put = puts[0]
+    ok = len(put.args) == 2 and isinstance(put.args[1], ast.Call) and isinstance(put.args[1].func, ast.Attribute) and \
+        put.args[1].func.attr == 'genIndex'
+    chk.ob('C18.R7', 'buildIndex/putData(name, document)', ok, where(mod, put), norm(put)[:100])
+    if not ok:
+        return
+    name, gen = put.args
+    chk.ob('C18.R7', 'buildIndex/index-name', norm(name) == 'self.indexFile', where(mod, put), norm(name))
+    chk.ob('C18.R7', 'buildIndex/genIndex-input', bool(gen.args) and norm(gen.args[0]) == proc, where(mod, gen),
+           'genIndex must be given the caller\'s results (%s)' % proc)
+    old = [k.value for k in gen.keywords if k.arg == 'old_index_data']
+    ok = len(old) == 1 and isinstance(old[0], ast.Call) and isinstance(old[0].func, ast.Attribute) and \
+        old[0].func.attr == 'getData' and norm(old[0].func.value) == norm(put.func.value) and \
+        [norm(a) for a in old[0].args] == [norm(name)]
+    chk.ob('C18.R7', 'buildIndex/old-index-read-back', ok, where(mod, gen),
+           'old_index_data must be <same writer>.getData(<same index name>)')
+    ts = enclosing_trys(common.stmt_of(put), bi)
+    h = cr.handler_covering(model, mod, ts[0], ('PySmiError', 'Exception', 'BaseException')) if ts else None
+    chk.ob('C18.R7', 'buildIndex/failure-handler', h is not None, where(mod, put), 'putData/genIndex not in a try')
+    if h is None:
+        return
+    cfg = CFG(bi)
+    hn = cfg.by_ast[id(h)]
+    tests = [n for n in cfg.nodes if n.kind == 'test' and in_subtree(n.ast, h) and
+             cr.option_reads(n.expr, opt, 'ignoreErrors')]
+    pol = [cr.option_reads(n.expr, opt, 'ignoreErrors')[0][0] for n in tests]
+    chk.ob('C18.R7', 'buildIndex/ignoreErrors-test', len(tests) == 1 and pol == [True], where(mod, h),
+           'one un-negated %s.get("ignoreErrors") test expected, found %s' % (opt, [norm(n.expr) for n in tests]))
+    if len(tests) != 1:
+        return
+    t = tests[0]
+    # without ignoreErrors (F edge) no path leaves the handler normally: every path ends in a raise
+    seen = cfg.reach([m for m, l in t.succ if l == 'F'], skip_labels=('exc',))
+    leaves = cfg.exit in seen
+    chk.ob('C18.R7', 'buildIndex/failure-raised-by-default', not leaves and any(
+        n.kind == 'stmt' and isinstance(n.ast, ast.Raise) for n in seen), where(mod, h),
+           'without ignoreErrors an index failure must be raised; a path returns normally')
+    seen_t = cfg.reach([m for m, l in t.succ if l == 'T'], skip_labels=('exc',))
+    chk.ob('C18.R7', 'buildIndex/failure-ignored-on-request', cfg.exit in seen_t and not any(
+        n.kind == 'stmt' and isinstance(n.ast, ast.Raise) for n in seen_t), where(mod, h),
+           'with ignoreErrors the failure must not be raised')
+
+
+RULES = [r1_componentwise_prefix, r2_attribute_chain, r3_sections_monotone, r4_ordering, r5_index_file_roundtrip,
+         r6_summary_objects, r7_build_index_call]
